@@ -64,7 +64,7 @@ THEOREMS = PARSER_THEOREMS + ENGINE_THEOREMS
 VIOLATING = ('panic', 'hang', 'oom', 'fatal', 'engine-panic', 'engine-hang', 'engine-err', 'nilpkg')
 MUTATIONS = {'quick': 20, 'thorough': 300}       # seeded mutations per fixture (c02gen -n)
 MODELLED_N = {'quick': 150, 'thorough': 1500}    # c03gen -n: n/2 malformed inputs for each of the five line formats
-LINE_FORMATS = ('apk', 'gradle', 'gemfile', 'dpkg', 'requirements')
+LINE_FORMATS = ('apk', 'gradle', 'gemfile', 'dpkg', 'requirements', 'reqtree')   # reqtree: requirements files including each other (cycles, odd operands)
 GEN_TIMEOUT = {'quick': 600, 'thorough': 1800}   # seconds, Python-side backstop for one c02gen invocation (never reached: see GEN_DEADLINE)
 GEN_DEADLINE = {'quick': 170, 'thorough': 1300}  # c02gen -deadline: after that many seconds it stops starting cases, abandons running ones (st=unrun) and PRINTS what it has
 EXT_BUDGET = {'quick': 240, 'thorough': 1500}    # c02gen -extbudget: cumulative wall seconds of cases per extractor
